@@ -231,6 +231,23 @@ func (in *inst) chanWait1(s ast.Stmt, pre *[]ast.Stmt) (ast.Stmt, ast.Stmt) {
 				post = afterChanOp(false)
 			}
 		}
+	case *ast.DeferStmt:
+		// defer close(ch): the simulator must learn of the close when it happens
+		if id, ok := x.Call.Fun.(*ast.Ident); ok && id.Name == "close" && len(x.Call.Args) == 1 {
+			hoisted++
+			nm := "zzdc" + strconv.Itoa(hoisted)
+			*pre = append(*pre, &ast.AssignStmt{Lhs: []ast.Expr{ast.NewIdent(nm)}, Tok: token.DEFINE, Rhs: []ast.Expr{x.Call.Args[0]}})
+			// no yield point may come between telling the simulator and closing
+			body := &ast.BlockStmt{List: []ast.Stmt{
+				simCall("Closed", ast.NewIdent(nm)),
+				&ast.ExprStmt{X: &ast.CallExpr{Fun: ast.NewIdent("close"), Args: []ast.Expr{ast.NewIdent(nm)}}},
+			}}
+			in.done[body] = true
+			x.Call = &ast.CallExpr{Fun: &ast.FuncLit{Type: &ast.FuncType{Params: &ast.FieldList{}}, Body: body}}
+			in.used = true
+			rep.ChanWrapped = append(rep.ChanWrapped, fmt.Sprintf("%s:%d(defer close)", in.rel, in.fset.Position(s.Pos()).Line))
+		}
+		return nil, nil
 	case *ast.SelectStmt:
 		// rewritten as a whole after the walk (desugarSelects)
 		return nil, nil
